@@ -126,3 +126,38 @@ def coverage(sites, wrappers):
         if not any(w["nr"] == s["nr"] for w in ws):
             mismatch.append(dict(s, table_nr=sorted({w["nr"] for w in ws})))
     return covered, uncovered, excluded, mismatch
+
+
+def enum_coverage(wrappers, repo=None):
+    """For every driver entry: the enum-typed parameters of the wrapper's signature (enums defined in
+    rusl/src) and which of their variants some entry of that wrapper exercises (entry field
+    `variant` contains "Enum::Variant").  Returns (required, uncovered) lists of "fn Enum::Variant"."""
+    root = os.path.join(repo or core.REPO, "rusl", "src")
+    enums = {}
+    texts = {}
+    for d, _, files in os.walk(root):
+        for n in files:
+            if n.endswith(".rs") and n != "test.rs":
+                t = open(os.path.join(d, n)).read()
+                texts[os.path.relpath(os.path.join(d, n), root)] = t
+                for m in re.finditer(r"pub enum (\w+)\s*\{([^}]*)\}", t):
+                    vs = [re.match(r"\s*(\w+)", l).group(1) for l in m.group(2).split(",")
+                          if re.match(r"\s*(\w+)", l) and not l.strip().startswith("//")]
+                    enums[m.group(1)] = [v for v in vs if v[0].isupper()]
+    by_fn = {}
+    for w in wrappers:
+        by_fn.setdefault(w["fn"], []).append(w.get("variant", ""))
+    required, uncovered = [], []
+    for fn, variants in sorted(by_fn.items()):
+        f, name = fn.split(":")
+        t = _strip_tests(texts.get(f, ""))
+        m = re.search(r"fn %s\s*(?:<[^>]*>)?\s*\(([^)]*)\)" % re.escape(name), t, re.S)
+        if not m:
+            continue
+        for ty in re.findall(r":\s*&?(?:mut\s+)?(?:[\w:]+::)?(\w+)", m.group(1)):
+            for v in enums.get(ty, []):
+                key = "%s::%s" % (ty, v)
+                required.append("%s %s" % (fn, key))
+                if not any(key in x for x in variants):
+                    uncovered.append("%s %s" % (fn, key))
+    return required, uncovered
